@@ -306,7 +306,7 @@ def expected(spec):
     if n_input_paths(spec) > 1 and spec['out'] is not None and m != 'link':
         return ('fail', 'multi-o')
     paths = [spec['out'] or ''] + [spec['deps'].get('MF') or '']
-    if any(p.startswith('nodir/') for p in paths):
+    if any(p.startswith('nodir/') or p.startswith('/dev/') for p in paths):
         return ('unknown', 'nodir')      # some child may be unable to write, depending on the mode: no expectation
     dps = {dep_path(spec, i) for i in spec['inputs']} - {None}
     if spec['out'] in dps or 'a.out' in dps or any(stem(i['name']) + e in dps for i in spec['inputs'] for e in ('.s', '.o')):
